@@ -9,7 +9,7 @@ oracle is needed: the classification tables in ``mcphot/ref/c03_tables.py`` say 
 every output column / property whether it is position-like (must move by exactly
 (dx, dy); x/y members swap on transposition) or position-free (must not change).
 
-Two rules keep the relation from being vacuous for cutout-registration slips:
+Three rules keep the relation from being vacuous for cutout-registration / border slips:
 
 * SOURCE ALPHABET.  Every scene holds, besides its 3-5 extended Gaussians, one
   instance of each "odd" segment of ``c03_core.ODD_PATTERNS`` (5-pixel diagonal, single
@@ -28,6 +28,23 @@ Two rules keep the relation from being vacuous for cutout-registration slips:
   passed in at least one configuration -- including ``error`` with the error-aware
   centroid functions (centroid_1dg / centroid_2dg) in find_peaks and centroid_sources.
   A cutout of such an array taken at the wrong place then changes the result.
+* BORDER ALPHABET AND PER-AXIS FOOTPRINT RULE (find_peaks, DAOStarFinder, StarFinder).  "Footprint inside the
+  original frame" is decided per axis on the integer DETECTION PIXEL of a row, with no margin: the row takes part when
+  [xp-Rx, xp+Rx] x [yp-Ry, yp+Ry] lies inside the original frame, Rx / Ry being the largest half size along that axis
+  of the search box / footprint, the kernel cutout, the documented border exclusion and int(min_separation)
+  (``finish_peaks``).  find_peaks reports the pixel; for DAOStarFinder it is recovered from the documented ``peak``
+  column (the one pixel within a kernel size of the centroid that holds exactly that value), for StarFinder from
+  ``flux`` + centroid (the one kernel box around the centroid that reproduces both) -- numpy only
+  (``c03_core.dao_peak_pixels`` / ``starfinder_peak_pixels``); exact ties give several candidate pixels: the row takes
+  part when all of them satisfy the rule, is left out when none does, and is left out and counted otherwise (0 rows
+  on the unchanged tree).  So that every boundary of that rule has rows on both sides, the image handed to
+  DAOStarFinder / StarFinder carries one compact star for EVERY (edge, d) in {bottom, top, left, right} x {0..5}
+  (brightest pixel d px from that edge), DAOStarFinder runs the full product kernel aspect {5x5, 5x9, 9x5, 5x7 tilted,
+  7x5 tilted} x exclude_border {False, True} (+ min_separation/mask variants of the two elongated kernels),
+  StarFinder kernel {7x5, 5x7, 5x5} x exclude_border, and find_peaks has border widths (2,4) and (3,1) -- the wider
+  border once along x and once along y; find_peaks gets its near-edge rows from noise peaks (threshold 1.9 sigma).
+  IRAFStarFinder (circular kernel only, no column that identifies the detection pixel) keeps the older loose rule:
+  isotropic half size 2*kernel radius + min_separation + 2 around the centroid.
 centroid_sources is checked under transposition (a centroid function) AND translation:
 it is the centroid step of find_peaks, which passes it its peaks, data, mask and error.
 
@@ -79,7 +96,14 @@ RULE = ('full Cartesian product scene x offset (dx,dy) x pad widths (px,py) x AP
         'given finder coordinates, a scalar catalogue sit on them too). Every optional per-pixel auxiliary input '
         '(error with a large-scale gradient, mask, background, convolved data, detection catalogue, threshold map) is '
         'transformed with the scene and passed in at least one configuration of each API that accepts it, error also '
-        'to the error-aware centroid functions of find_peaks / centroid_sources. Every case runs the real API on '
+        'to the error-aware centroid functions of find_peaks / centroid_sources. BORDER: the image of DAOStarFinder / '
+        'StarFinder also holds one compact star per (edge, d) in {bottom,top,left,right} x {0..5} px (brightest pixel d px '
+        'from the edge); DAOStarFinder = 5 general configurations + full product kernel aspect {5x5, 5x9, 9x5, 5x7 tilted, '
+        '7x5 tilted} x exclude_border {F,T} + 2 min_separation/mask variants; StarFinder = kernel {7x5, 5x7, 5x5} x '
+        'exclude_border {F,T}; find_peaks border_width in {none, (2,4), (3,1)}. Rows of find_peaks / DAOStarFinder / '
+        'StarFinder are selected by the per-axis rule on the integer detection pixel: box of half sizes (Rx, Ry) = per-axis '
+        'max(search footprint, kernel cutout, border width, int(min_separation)) inside the original frame, no margin '
+        '(IRAFStarFinder: loose isotropic rule on the centroid). Every case runs the real API on '
         'the base inputs and on the transformed inputs and compares every classified column. A case is non-trivial '
         'when the transformation is not the identity embedding (dx,dy,px,py)=(0,0,0,0) AND at least one row/value '
         'passed the footprint rule and was compared.')
@@ -94,6 +118,13 @@ ASSUMPTIONS = [
     'the relation compares two runs: a value that is NaN ("no result") in both runs agrees, so a defect that makes a '
     'measurement fail identically in the base and in the transformed frame is invisible here (such values are counted '
     'in values_nan_in_both_runs)',
+    'the detection pixel of a DAOStarFinder row is the unique pixel within one kernel size of the centroid whose data '
+    'value equals the documented "peak" column; of a StarFinder row the unique pixel within the kernel half size of the '
+    'centroid whose kernel-sized box of non-negative pixels reproduces the documented flux (rtol 1e-9) and centroid '
+    '(1e-7): a defect that corrupts these columns identically in both runs would only remove rows from the comparison '
+    '(counted in rows_without_recovered_detection_pixel)',
+    'IRAFStarFinder rows are selected by the loose isotropic rule (2*kernel radius + min_separation + 2 px around the '
+    'centroid): its border exclusion width and near-edge rows are outside the bound',
     'centroid_sources under translation is read off the find_peaks clause of the property (find_peaks delegates its '
     'centroids to it); find_peaks and the star finders are not transposed (the property does not list them)',
 ]
@@ -286,8 +317,9 @@ def run_aperstats(S, T, ci):
 # find_peaks and the star finders (rows are discovered by the call)
 # ----------------------------------------------------------------------------
 def finish_detected(res, S, T, xname, yname, R):
-    """Interior rule: a row takes part when the box of half-size R (kernel / search box / border
-    width, one pixel margin included by the caller) around its position lies inside the ORIGINAL frame."""
+    """LOOSE interior rule (IRAFStarFinder only: its kernel is always circular and its table has no column from which
+    the detection pixel could be recovered): a row takes part when the box of half-size R (kernel / search box /
+    border width, one pixel margin included by the caller) around its position lies inside the ORIGINAL frame."""
     if res.n == 0:
         res.foot['int'] = np.zeros(0, bool)
         res.rowxy = (np.zeros(0), np.zeros(0))
@@ -299,7 +331,41 @@ def finish_detected(res, S, T, xname, yname, R):
     return res
 
 
-FP_CFG = ['box3', 'box(5,3)-mask', 'footprint3x5-border(2,4)', 'box5-npeaks7', 'box(5,7)-centroid_com',
+def finish_peaks(res, S, T, cands, Rx, Ry):
+    """TIGHT, per-axis interior rule on the integer DETECTION PIXEL (transformed frame) of every row: the row takes
+    part when the box [xp-Rx, xp+Rx] x [yp-Ry, yp+Ry] lies inside the ORIGINAL frame, where per axis R is the
+    largest half size of anything the measurement reads or the documented border exclusion refers to (peak-search
+    footprint / box, kernel cutout, border width, int(min_separation)).  No margin: the convolution of the finders
+    treats the outside of the frame as zero, which is what the zero padded canvas holds, so inside the original frame
+    the convolved image, every cutout that lies inside it and the local-maximum decision of a pixel whose search
+    footprint lies inside it are the same in both runs.  ``cands``: per row the list of possible detection pixels
+    (one, except for exact ties): the row takes part when ALL of them satisfy the rule, is left out when none does,
+    and is left out and counted as lost when there is no candidate or they disagree."""
+    ny, nx = S['shape']
+    n = res.n
+    x0, y0 = np.full(n, np.nan), np.full(n, np.nan)
+    ok, band, lost = np.zeros(n, bool), 0, 0
+    Rm = max(Rx, Ry)
+    for i, cand in enumerate(cands):
+        if not cand:
+            lost += 1
+            continue
+        bx, by = back(T, [c[0] for c in cand], [c[1] for c in cand])
+        x0[i], y0[i] = bx[0], by[0]
+        ins = (bx - Rx >= 0) & (bx + Rx <= nx - 1) & (by - Ry >= 0) & (by + Ry <= ny - 1)
+        if ins.all():
+            ok[i] = True
+            # rows that an isotropic rule with the larger of the two half sizes would leave out: the anisotropic band
+            band += int(not ((bx - Rm >= 0) & (bx + Rm <= nx - 1) & (by - Rm >= 0) & (by + Rm <= ny - 1)).all())
+        elif ins.any():
+            lost += 1
+    res.rowxy = (x0, y0)
+    res.foot['int'] = ok
+    res.band, res.lost = band, lost
+    return res
+
+
+FP_CFG = ['box3', 'box(5,3)-mask', 'footprint3x5-border(2,4)', 'box3-border(3,1)', 'box5-npeaks7', 'box(5,7)-centroid_com',
           'box5-centroid_quadratic-mask', 'thresholdmap-box3', 'thr6-box5-centroid_1dg-error-mask',
           'thr6-box(7,5)-centroid_2dg-error']
 
@@ -309,34 +375,39 @@ def run_find_peaks(S, T, ci):
     from photutils.detection import find_peaks
     name = FP_CFG[ci]
     data = T.img(S['data'])
-    kw, R = {}, 2.5
     thr, fit = 1.5, False
+    # R = (Rx, Ry): per-axis half size of the search box / footprint (= centroid cutout), or the border width if larger
     if name == 'box3':
-        kw, R = {'box_size': 3}, 1 + 1.5
+        kw, R = {'box_size': 3}, (1, 1)
     elif name == 'box(5,3)-mask':
-        kw, R = {'box_size': (5, 3), 'mask': T.img(S['mask'])}, 1 + 2.5
+        kw, R = {'box_size': (5, 3), 'mask': T.img(S['mask'])}, (1, 2)
     elif name == 'footprint3x5-border(2,4)':
         fp = np.array([[0, 1, 1, 1, 1], [1, 1, 1, 1, 1], [1, 1, 1, 0, 0]], bool)       # (ny=3, nx=5), asymmetric
-        kw, R = {'footprint': fp, 'border_width': (2, 4)}, 1 + 4.0
+        kw, R = {'footprint': fp, 'border_width': (2, 4)}, (4, 2)
+    elif name == 'box3-border(3,1)':
+        # the border is the wider one in y here (in x in the configuration above)
+        kw, R = {'box_size': 3, 'border_width': (3, 1)}, (1, 3)
     elif name == 'box5-npeaks7':
-        kw, R = {'box_size': 5, 'npeaks': 7}, 1 + 2.5
+        # npeaks keeps the 7 highest peaks of the whole frame.  The image is not convolved and the threshold is positive,
+        # so the zero padding holds no peak and the two runs select from the same set of peaks
+        kw, R = {'box_size': 5, 'npeaks': 7}, (2, 2)
     elif name == 'box(5,7)-centroid_com':
-        kw, R = {'box_size': (5, 7), 'centroid_func': centroid_com}, 1 + 3.5
+        kw, R = {'box_size': (5, 7), 'centroid_func': centroid_com}, (3, 2)
     elif name == 'thresholdmap-box3':
         # per-pixel threshold map (a ramp), translated with the scene; the padding gets a positive threshold
         thr = T.img(0.6 * S['bkg'], fill=1.0)
-        kw, R = {'box_size': 3}, 1 + 1.5
+        kw, R = {'box_size': 3}, (1, 1)
     elif name == 'thr6-box5-centroid_1dg-error-mask':
         # error-aware centroid functions: the (non-constant) error map is translated with the scene; threshold 6
         # (7.5 noise sigma) keeps the number of Gaussian fits per call small
         thr, fit = 6.0, True
         kw, R = {'box_size': 5, 'centroid_func': centroid_1dg, 'error': T.img(S['error'], fill=1.0),
-                 'mask': T.img(S['mask'])}, 1 + 2.5
+                 'mask': T.img(S['mask'])}, (2, 2)
     elif name == 'thr6-box(7,5)-centroid_2dg-error':
         thr, fit = 6.0, True
-        kw, R = {'box_size': (7, 5), 'centroid_func': centroid_2dg, 'error': T.img(S['error'], fill=1.0)}, 1 + 3.5
+        kw, R = {'box_size': (7, 5), 'centroid_func': centroid_2dg, 'error': T.img(S['error'], fill=1.0)}, (2, 3)
     else:
-        kw, R = {'box_size': 5, 'centroid_func': centroid_quadratic, 'mask': T.img(S['mask'])}, 1 + 2.5
+        kw, R = {'box_size': 5, 'centroid_func': centroid_quadratic, 'mask': T.img(S['mask'])}, (2, 2)
     tbl = find_peaks(data, thr, **kw)
     res = table_to_res('find_peaks', tbl, True)
     if fit:
@@ -345,10 +416,21 @@ def run_find_peaks(S, T, ci):
         for c in ('x_centroid', 'y_centroid'):
             if c in res.cols:
                 res.cols[c]['tol'] = 'fit'
-    return finish_detected(res, S, T, 'x_peak', 'y_peak', R)
+    if res.n == 0:
+        return finish_peaks(res, S, T, [], *R)
+    return finish_peaks(res, S, T, [[(int(a), int(b))] for a, b in zip(res.cols['x_peak']['v'], res.cols['y_peak']['v'])],
+                        *R)
 
 
+# DAOStarFinder: kernel-aspect alphabet {square 5x5, wide 5x9 (theta=0), tall 9x5 (theta=90), tilted 5x7 (theta=30),
+# tilted 7x5 (theta=60)} x exclude_border {False, True} is enumerated completely by the 'aspect:*' configurations; the
+# image handed to DAOStarFinder / StarFinder is S['fdata'] = scene + the 24 edge stars (BORDER ALPHABET, c03_core)
+DAO_ASPECTS = {'square5x5': dict(fwhm=3.0), 'wide5x9': dict(fwhm=6.5, ratio=0.4, theta=0.0),
+               'tall9x5': dict(fwhm=6.5, ratio=0.4, theta=90.0), 'tilted5x7': dict(fwhm=6.5, ratio=0.4, theta=30.0),
+               'tilted7x5': dict(fwhm=6.5, ratio=0.4, theta=60.0)}
 DAO_CFG = ['default', 'elliptical-exclude_border-mask', 'xycoords', 'peakmax-minsep', 'thr3-open-filters-mask']
+DAO_CFG += [f'aspect:{a}/exclude_border={b}' for a in DAO_ASPECTS for b in (False, True)]
+DAO_CFG += ['aspect:wide5x9/exclude_border=True/minsep3-mask', 'aspect:tall9x5/exclude_border=True/minsep3-mask']
 
 
 def run_dao(S, T, ci):
@@ -361,20 +443,41 @@ def run_dao(S, T, ci):
         f = DAOStarFinder(6.0, 3.5, ratio=0.6, theta=30.0, exclude_border=True, sharplo=0.1, roundlo=-2.0, roundhi=2.0)
         mask = T.img(S['mask'])
     elif name == 'xycoords':
-        xi, yi = T.ipos([int(p[1] + 0.5) for p in S['src']] + [int(o['xc']) for o in S['odd']],
-                        [int(p[2] + 0.5) for p in S['src']] + [int(o['yc']) for o in S['odd']])
+        # given integer positions: the Gaussian sources, the odd segments and ALL edge stars (cutouts that reach over
+        # the frame edge are measured too; the interior rule keeps those whose kernel box lies inside)
+        xi, yi = T.ipos([int(p[1] + 0.5) for p in S['src']] + [int(o['xc']) for o in S['odd']]
+                        + [e['ix'] for e in S['edge']],
+                        [int(p[2] + 0.5) for p in S['src']] + [int(o['yc']) for o in S['odd']]
+                        + [e['iy'] for e in S['edge']])
         f = DAOStarFinder(4.0, 3.0, xycoords=np.transpose([xi, yi]), sharplo=0.0, roundlo=-3.0, roundhi=3.0)
     elif name == 'thr3-open-filters-mask':
         # low threshold, sharpness / roundness cuts wide open: the odd segments (hot pixel, thin lines, blocks)
         # and noise peaks stay in the table instead of being filtered away
         f = DAOStarFinder(3.0, 2.5, sharplo=-10.0, sharphi=10.0, roundlo=-10.0, roundhi=10.0)
         mask = T.img(S['mask'])
+    elif name.startswith('aspect:'):
+        # cuts wide open: a round star seen through an elongated kernel must not be filtered away
+        parts = name.split('/')
+        kw = dict(DAO_ASPECTS[parts[0][7:]])
+        if len(parts) == 3:
+            kw['min_separation'] = 3.0
+            mask = T.img(S['mask'])
+        f = DAOStarFinder(5.0, exclude_border=(parts[1] == 'exclude_border=True'), sharplo=-10.0, sharphi=10.0,
+                          roundlo=-10.0, roundhi=10.0, **kw)
     else:
         f = DAOStarFinder(6.0, 2.6, peakmax=88.0, min_separation=4.0)
-    tbl = f(T.img(S['data']), mask=mask)
+    data = T.img(S['fdata'])
+    tbl = f(data.copy(), mask=mask)
     res = table_to_res('DAOStarFinder', tbl, True)
-    hs = max(f.kernel.shape) // 2
-    return finish_detected(res, S, T, 'xcentroid', 'ycentroid', 2 * hs + f.min_separation + 2)
+    # per axis: kernel half size (cutouts, peak-search footprint = kernel mask, excluded border) or, if larger, the
+    # radius int(min_separation) of the circular peak-search footprint used when min_separation > 0
+    Rx, Ry = max(f.kernel.xradius, int(f.min_separation)), max(f.kernel.yradius, int(f.min_separation))
+    if res.n == 0:
+        return finish_peaks(res, S, T, [], Rx, Ry)
+    cands = core.dao_peak_pixels(data, np.asarray(res.cols['xcentroid']['v'], float),
+                                 np.asarray(res.cols['ycentroid']['v'], float),
+                                 np.asarray(res.cols['peak']['v'], float), f.kernel.shape)
+    return finish_peaks(res, S, T, cands, Rx, Ry)
 
 
 IRAF_CFG = ['default', 'exclude_border-mask', 'thr4-open-filters', 'xycoords']
@@ -402,22 +505,35 @@ def run_iraf(S, T, ci):
     return finish_detected(res, S, T, 'xcentroid', 'ycentroid', 2 * hs + f.min_separation + 2)
 
 
-SF_CFG = ['kernel7x5', 'kernel7x5-exclude_border-mask']
+# StarFinder: kernel shape {7x5, 5x7, 5x5} x exclude_border {False, True}
+SF_CFG = ['kernel7x5', 'kernel7x5-exclude_border-mask', 'kernel5x7', 'kernel5x7-exclude_border-mask', 'kernel5x5',
+          'kernel5x5-exclude_border-mask']
 
 
 def run_starfinder(S, T, ci):
     from photutils.detection import StarFinder
-    yy, xx = np.mgrid[-3:4, -2:3].astype(float)          # (ny=7, nx=5): non-square kernel
-    kernel = np.exp(-0.5 * ((xx / 1.3) ** 2 + (yy / 1.8) ** 2))
+    name = SF_CFG[ci]
+    ry, rx = {'7x5': (3, 2), '5x7': (2, 3), '5x5': (2, 2)}[name[6:9]]        # kernel (ny, nx) = (2ry+1, 2rx+1)
+    yy, xx = np.mgrid[-ry:ry + 1, -rx:rx + 1].astype(float)
+    kernel = np.exp(-0.5 * ((xx / (0.65 * rx)) ** 2 + (yy / (0.6 * ry)) ** 2))
     mask = None
-    if SF_CFG[ci] == 'kernel7x5':
-        f, ms = StarFinder(5.0, kernel, min_separation=4.0), 4.0
-    else:
+    if name.endswith('exclude_border-mask'):
         f, ms = StarFinder(4.0, kernel, min_separation=2.5, exclude_border=True), 2.5
         mask = T.img(S['mask'])
-    tbl = f(T.img(S['data']), mask=mask)       # NB: always a fresh copy (StarFinder writes into its input, C10)
+    else:
+        f, ms = StarFinder(5.0, kernel, min_separation=4.0), 4.0
+    data = T.img(S['fdata'])
+    tbl = f(data.copy(), mask=mask)       # NB: always a fresh copy (StarFinder writes into its input, C10)
     res = table_to_res('StarFinder', tbl, True)
-    return finish_detected(res, S, T, 'xcentroid', 'ycentroid', 2 * 3 + ms + 2)
+    # per axis: kernel half size (cutout, excluded border) or, if larger, the radius int(min_separation) of the
+    # circular peak-search footprint
+    Rx, Ry = max(rx, int(ms)), max(ry, int(ms))
+    if res.n == 0:
+        return finish_peaks(res, S, T, [], Rx, Ry)
+    cands = core.starfinder_peak_pixels(data, np.asarray(res.cols['xcentroid']['v'], float),
+                                        np.asarray(res.cols['ycentroid']['v'], float),
+                                        np.asarray(res.cols['flux']['v'], float), kernel.shape)
+    return finish_peaks(res, S, T, cands, Rx, Ry)
 
 
 # ----------------------------------------------------------------------------
@@ -900,6 +1016,11 @@ def check_case(acc, S, api, ci, T, base=None, sample=False):
     acc.case(nontrivial=(not identity) and compared > 0, sample=case if sample else None)
     acc.counters.update(stats)
     acc.counters[f'cases:{api}'] += 1
+    if not identity and getattr(base, 'band', None) is not None:
+        # rows compared although they are closer to an edge than the LARGER kernel / border half size (possible only
+        # with the per-axis rule), and rows whose detection pixel could not be recovered
+        acc.counters[f'rows_compared_in_anisotropic_border_band:{api}'] += base.band
+        acc.counters[f'rows_without_recovered_detection_pixel:{api}'] += base.lost + getattr(new, 'lost', 0)
     if compared == 0 and base.error is None:
         acc.counters['cases_with_nothing_compared'] += 1
     acc.outcome((api, ci, S['k'], base.n, tuple(sorted(base.cols))[:3], compared))
@@ -934,6 +1055,12 @@ def describe(tier, seed):
                              'mask': '3 bad pixels in sources + 1 background pixel + the 3x3 masked block, pad False',
                              'background': 'ramp a*x+b*y+c (a != b), continued into the padding',
                              'threshold map': 'multiple of the ramp, pad 1.0', 'convolved_data': '3x3 binomial, pad 0'},
+        'edge_stars(finder image)': {'edges': list(core.EDGE_NAMES), 'distance_of_brightest_pixel_from_edge': list(core.EDGE_D),
+                                     'per_scene': len(core.EDGE_NAMES) * len(core.EDGE_D),
+                                     'profile': 'round Gaussian sigma 1.15, amplitude 45, sub-pixel fraction |f| <= 0.3'},
+        'DAOStarFinder_kernel_aspects': {k: str(v) for k, v in DAO_ASPECTS.items()},
+        'interior_rule': 'find_peaks/DAOStarFinder/StarFinder: per-axis box (Rx,Ry) around the integer detection pixel '
+                         'inside the original frame, no margin; IRAFStarFinder: isotropic 2*r+min_separation+2 on the centroid',
         'dx': list(OFFX if tier == 'quick' else OFFX_EXTRA), 'dy': list(OFFY if tier == 'quick' else OFFY_EXTRA),
         'pads(px,py)': [list(p) for p in PADS[tier]],
         'transforms_per_configuration': len(transforms(tier, False)),
